@@ -68,6 +68,29 @@ func scenarioQ(c *harness.Ctx) {
 	}
 	closerYields := tp.Choose(6)
 	yieldDen := 1 + tp.Choose(4) // harness yield density
+	// mode 0: consumers pull until closure, closer closes after the producers.
+	// mode 1 (quota): no close; the consumers' pull quotas sum to the number of
+	//   items, so every pull must be woken by an item (lost wake-up = deadlock).
+	// mode 2 (late): bounded queue only; consumers start pulling only after all
+	//   producers are done, so a Push on a full queue must refuse, not block.
+	mode := tp.Pick(6, 3, 2)
+	if mode == 2 && linked {
+		mode = 0
+	}
+	if mode == 1 && !linked {
+		capacity = total + tp.Choose(3) // never full: producers need no retry
+		if capacity == 0 {
+			capacity = 1
+		}
+	}
+	quota := make([]int, nCons)
+	if mode == 1 {
+		for i := 0; i < total; i++ {
+			quota[tp.Choose(nCons)]++
+		}
+	}
+	c.Config["mode"] = []string{"close", "quota", "late"}[mode]
+	c.Config["capacity"] = capacity
 	c.Config["queue"] = map[bool]string{true: "linked", false: "channel"}[linked]
 	c.Config["capacity"] = capacity
 	c.Config["producers"] = nProd
@@ -104,7 +127,13 @@ func scenarioQ(c *harness.Ctx) {
 		for k := 0; k < nCons; k++ {
 			k := k
 			w.Go(fmt.Sprintf("cons%d", k), func() {
-				for {
+				if mode == 2 {
+					wg.Wait()
+				}
+				for n := 0; ; n++ {
+					if mode == 1 && n >= quota[k] {
+						return
+					}
 					if tp.Choose(yieldDen) == 0 {
 						w.Yield("harness.cons")
 					}
@@ -123,6 +152,9 @@ func scenarioQ(c *harness.Ctx) {
 			})
 		}
 		w.Go("closer", func() {
+			if mode == 1 {
+				return
+			}
 			wg.Wait()
 			for i := 0; i < closerYields; i++ {
 				w.Yield("harness.closer")
